@@ -105,7 +105,7 @@ def run(ctx):
                       "pj": P.to_json(p),
                       "flat_text": r.get("flat_text")})
     files = []
-    per = 40
+    per = 10
     for j in range(0, len(cases), per):
         body = core.FLAT_HEADER
         chunk = cases[j:j + per]
